@@ -549,7 +549,7 @@ class Gen:
     def g_stats(self, live):
         if not live:
             return None
-        return ("act", self.r.choice(live), {"verb": "STATS", "query": self.r.choice("um")})
+        return ("act", self.r.choice(live), {"verb": "STATS", "query": self.r.choice("umumchikloy")})
 
     def g_die(self, live):
         if not live:
